@@ -69,7 +69,7 @@ func (w *Worker) Mine(ctx context.Context, data []byte, targetScore float64) (ui
 	simYield("mine.spawned", simCaller)
 
 	// compute the minimum numbers of trailing zeros required to get a PoW score ≥ targetScore
-	targetZeros := uint(math.Ceil(math.Log(float64(len(data)+nonceBytes)*targetScore) / ln3))
+	targetZeros := targetTrailingZeros(len(data)+nonceBytes, targetScore)
 
 	workerWidth := math.MaxUint64 / uint64(w.numWorkers)
 	for i := 0; i < w.numWorkers; i++ {
@@ -105,6 +105,27 @@ func (w *Worker) Mine(ctx context.Context, data []byte, targetScore float64) (ui
 		return 0, ErrCancelled
 	}
 	return nonce, nil
+}
+
+// targetTrailingZeros returns the smallest number of trailing zeros z such that 3^z / msgLen ≥ targetScore.
+// The logarithm only provides an estimate, which is then corrected using the same arithmetic as Score.
+func targetTrailingZeros(msgLen int, targetScore float64) uint {
+	score := func(zeros uint) float64 {
+		return math.Pow(consts.TrinaryRadix, float64(zeros)) / float64(msgLen)
+	}
+
+	// for trivially low target scores the estimate is negative (or NaN), in that case no trailing zeros are required
+	var zeros uint
+	if estimate := math.Ceil(math.Log(float64(msgLen)*targetScore) / ln3); estimate > 0 {
+		zeros = uint(math.Min(estimate, consts.HashTrinarySize+1))
+	}
+	for zeros > 0 && score(zeros-1) >= targetScore {
+		zeros--
+	}
+	for zeros <= consts.HashTrinarySize && score(zeros) < targetScore {
+		zeros++
+	}
+	return zeros
 }
 
 func (w *Worker) worker(powDigest []byte, startNonce uint64, target uint, done *uint32, counter *uint64) (uint64, error) {
